@@ -98,6 +98,8 @@ def run_pairing(task):
         out['cover']['paired'] = out['cover'].get('paired', 0) + 1
         if len(exp) >= 2:
             out['cover']['two or more blocks'] = 1
+        if any(t.startswith('Q') for t in tmpls):
+            out['cover']['tag text inside a quoted value'] = 1
         if any(e['content_bytes'] == (0, 0) for e in exp):
             out['cover']['start and end tag in one comment'] = 1
         if want_sample and not out['samples']:
@@ -119,7 +121,7 @@ def ref_list(src):
     s = src.decode('latin1')
     events = []
     for cm in re.finditer(r'/\*.*?\*/|//[^\n]*', s, re.S):
-        for tm in re.finditer(r'<block(?: name="(\w+)")?(?:\s+a="1")?(?:\s+bb="22")?>|</\s*block\s*>', cm.group(0)):
+        for tm in re.finditer(r'<block(?: name="(\w+)")?(?:\s+[a-z]+="[^"]*")*>|</\s*block\s*>', cm.group(0)):
             off = cm.start() + tm.start()
             events.append((off, None if tm.group(0).startswith('</') else (tm.group(1) or '(unnamed)')))
     stack, out = [], []
@@ -176,7 +178,7 @@ def confirm_norm(binary, v, idx):
 
 
 BOUNDS = {
-    'quick': dict(max_comments=3, tmpls=['S', 'E', 'SE', 'nS', 'ES', 'Snt', 'nE', 'SS', 'EE', 'tntnS', 'SntnS', 'uS', 'MS', 'MnS', 'L', 'LS'], sample=340, lmax=6, validate=20),
+    'quick': dict(max_comments=3, tmpls=['S', 'E', 'SE', 'nS', 'ES', 'Snt', 'nE', 'SS', 'EE', 'tntnS', 'SntnS', 'uS', 'MS', 'MnS', 'L', 'LS', 'Q', 'QE'], sample=380, lmax=6, validate=20),
     'thorough': dict(max_comments=4, tmpls=list(TEMPLATES.keys()), sample=3000, lmax=8, validate=80),
 }
 
@@ -287,7 +289,7 @@ def main(tier):
                      'the winnow tag parser is replaced by the event list of each comment template (attributes as written: C05, not applicable)',
                      'normalisers: ASCII comment text over per-form alphabets, opener assumed, closer not'],
         stubs=['tree_sitter::Node (kind + byte range)', 'tree_sitter::{Parser, Tree, TreeCursor} over model trees'],
-        must_cover=['paired', 'two or more blocks', 'start and end tag in one comment', 'normalised', 'tree walk', 'md+html merge'],
+        must_cover=['paired', 'two or more blocks', 'start and end tag in one comment', 'tag text inside a quoted value', 'normalised', 'tree walk', 'md+html merge'],
         explanation='reference pairing and positions as Z3 terms over the symbolic geometry: PC∧(field≠reference) asked per block field on every path; normaliser output compared bytewise with its input')
 
 
